@@ -53,6 +53,7 @@ class Harness:
         self.flags = meta.get("flags", "").replace("+", " ").split() if meta.get("flags") else []
         self.role = meta.get("role", name)
         self.weight = int(meta.get("weight", "1"))  # rough parallel-slot cost (1 = light)
+        self.cap = int(meta["cap"]) if "cap" in meta else None  # model-map capacity this harness is built with
 
 
 # property -> harness directories under incrate/ (default: the directory named like the property)
@@ -94,8 +95,8 @@ def scan_harnesses(prop):
 
 # --------------------------------------------------------------------------------------------
 # staging
-def stage(prop, tag, seed):
-    root = os.path.join(SCRATCH_ROOT, f"{prop}-{tag}-{os.getpid()}")
+def stage(prop, tag, seed, cap=None):
+    root = os.path.join(SCRATCH_ROOT, f"{prop}-{tag}-{os.getpid()}" + (f"-cap{cap}" if cap else ""))
     shutil.rmtree(root, ignore_errors=True)
     os.makedirs(os.path.join(root, "verifroot", "incrate"))
     subprocess.check_call(["rsync", "-a", "--exclude", "target", "--exclude", ".git", REPO + "/", os.path.join(root, "repo") + "/"])
@@ -125,9 +126,10 @@ def stage(prop, tag, seed):
     for m in MODELS:
         cfg.append('%s = { path = "%s/models/%s" }' % (m, VERIF, m))
     cfg += ["[env]", 'ASSETS_MANAGER_VERIF = "%s/verifroot"' % root, 'VERIF_SEED = "%d"' % seed]
-    cap = META.get(prop, {}).get("map_cap")
-    if isinstance(cap, dict):
-        cap = cap.get(tag)
+    if cap is None:
+        cap = META.get(prop, {}).get("map_cap")
+        if isinstance(cap, dict):
+            cap = cap.get(tag)
     if cap:
         cfg.append('VERIF_MAP_CAP = "%d"' % cap)
     open(os.path.join(root, "repo", ".cargo", "config.toml"), "w").write("\n".join(cfg) + "\n")
@@ -401,6 +403,7 @@ def main(prop, tier, seed, extra=None):
     ev = {"property_id": prop, "tier": tier, "seed": seed, "level": "model_checking", "violations": 0}
     results = []
     root = None
+    roots = {}
     status = 0
     notes = []
     try:
@@ -408,19 +411,25 @@ def main(prop, tier, seed, extra=None):
         if miss:
             notes.append("hooks missing in working tree: " + ",".join(miss))
             raise RuntimeError("hooks missing: " + ",".join(miss))
-        root = stage(prop, tier, seed)
-        ok, out, bdt = build(root, os.path.join(logdir, "build.log"))
-        if not ok:
-            notes.append("build failed (see logs): " + "\n".join(out.splitlines()[-15:]))
-            errs = re.findall(r"^error(?:\[E\d+\])?:.*?(?=^\S|\Z)", out, flags=re.M | re.S)
-            log("INCONCLUSIVE build of staged tree failed:\n" + "\n".join(e.rstrip()[:1500] for e in errs[:6]))
-            status = 2
-        else:
+        caps = sorted(set(h.cap for h in harnesses), key=lambda c: (c is not None, c))
+        roots = {}
+        build_ok = True
+        for c in caps:
+            roots[c] = stage(prop, tier, seed, c)
+            ok, out, bdt = build(roots[c], os.path.join(logdir, f"build{'' if c is None else '-cap%d' % c}.log"))
+            if not ok:
+                build_ok = False
+                notes.append("build failed (see logs): " + "\n".join(out.splitlines()[-15:]))
+                errs = re.findall(r"^error(?:\[E\d+\])?:.*?(?=^\S|\Z)", out, flags=re.M | re.S)
+                log("INCONCLUSIVE build of staged tree failed:\n" + "\n".join(e.rstrip()[:1500] for e in errs[:6]))
+                status = 2
+        root = roots[caps[0]] if caps else None
+        if build_ok and harnesses:
             workers = int(os.environ.get("VERIF_JOBS", "8" if tier == "quick" else "6"))
             # heavy harnesses first
             hs = sorted(harnesses, key=lambda h: -h.timeout * h.weight)
             with cf.ThreadPoolExecutor(max_workers=workers) as ex:
-                futs = {ex.submit(run_harness, root, h, logdir): h for h in hs}
+                futs = {ex.submit(run_harness, roots[h.cap], h, logdir): h for h in hs}
                 for f in cf.as_completed(futs):
                     h = futs[f]
                     res, out = f.result()
@@ -432,7 +441,7 @@ def main(prop, tier, seed, extra=None):
                     h = next(x for x in harnesses if x.name == res["harness"])
                     k = next((k for k in known if k.get("harness") == h.name), None)
                     rdir = os.path.join(VERIF, "replay", "generated", h.name)
-                    info = replay(root, h, logdir, rdir)
+                    info = replay(roots[h.cap], h, logdir, rdir)
                     res["replay"] = info
                     if info.get("reproduced") is False and res.get("mem_only"):
                         info["note"] = ("failure class is a CBMC memory-model check (leak / double free / dealloc layout / invalid pointer): "
@@ -469,8 +478,9 @@ def main(prop, tier, seed, extra=None):
         log("INCONCLUSIVE machinery error: %r" % (e,))
         status = max(status, 2)
     finally:
-        if root and not os.environ.get("VERIF_KEEP"):
-            shutil.rmtree(root, ignore_errors=True)
+        if not os.environ.get("VERIF_KEEP"):
+            for r_ in (roots or {}).values():
+                shutil.rmtree(r_, ignore_errors=True)
     if ev["violations"] > 0:
         status = 1
     return finish(prop, tier, seed, ev, results, notes, status, t0)
